@@ -353,7 +353,10 @@ def run_program(job):
             nset += 1
             v = mk(val)
             old = line._data.get(f, _MISSING)
-            r, _, exc = guarded(lambda: line.set(f, v))
+            if offset % 2 == 1:          # odd choices assign through the attribute: line.<field> = v
+                r, _, exc = guarded(lambda: setattr(line, f, v))
+            else:
+                r, _, exc = guarded(lambda: line.set(f, v))
             new = line._data.get(f, _MISSING)
             ev.update(k="set", c=cls, res=r, kept=("?" if v is old else ("T" if new is old else "F")))
         elif code == "get":
@@ -422,7 +425,7 @@ def _prog_batches(progs, tier, seed):
     rnd = random.Random(seed)
     laxkeys = set(LAX)
     if tier == "quick":
-        offs = [0, rnd.randint(1, 4)]
+        offs = [0, rnd.choice([1, 3])]
         laxoffs = [rnd.randint(0, 3)]
     else:
         offs = [0, 1, 2, 3, 4]
@@ -531,7 +534,7 @@ def check_programs(out, tier, seed, fields=None, maxlen=None):
         out.violations.append(dict(
             family=FAM, kind="prog", clauses=list(clauses),
             input="line=%r field=%s set=%s then=%s" % (fd["line"], fd["name"], json.dumps(last), key[3]),
-            api="Line.set/get/field_to_s/str/validate", levels=sorted(g["levels"]), occurrences=g["n"],
+            api="Line.set (or attribute assignment)/get/field_to_s/str/validate", levels=sorted(g["levels"]), occurrences=g["n"],
             program=dict(lvl=job[1], key=job[2], codes=list(job[3]), offset=job[4], lax=job[5],
                          force=list(job[6]) if len(job) > 6 else []),
             rejected_call=at, calls=calls,
